@@ -169,9 +169,9 @@ def flattenKidsFI (cfg : Cfg α) : List (Node α) → StratData α → Except Er
 def flattenStrat (cfg : Cfg α) (sd : StratData α) (kids : List (Node α)) : Except Err (StratData α × List (Node α)) :=
   if sd.fixedIncome then flattenKidsFI cfg kids sd else flattenKidsMV cfg kids sd
 
-/-- `root.update(date)`: `updNode` plus the root-only bankruptcy step (l.723-727) and the
-    re-entrant refresh that the first value read of the weight loop triggers after `flatten`
-    has set `stale`. -/
+/-- `root.update(date)`: `updNode` plus the root-only bankruptcy step (l.723-727): the flag is set, the
+    tree is flattened and — the totals gathered so far being those of the pre-liquidation tree — the update
+    is redone on the liquidated tree (same date, so no resets; the flag prevents a second trigger). -/
 def updRoot (cfg : Cfg α) (d : Nat) (w : World α) : Except Err (World α) :=
   match w.root with
   | .sec _ => throw Err.badPath
@@ -182,15 +182,7 @@ def updRoot (cfg : Cfg α) (d : Nat) (w : World α) : Except Err (World α) :=
     let val := acc.val + acc.coupons
     if val < 0 && !sd2.bankrupt && !sd2.fixedIncome && !(isZero cfg.tol val) then
       (flattenStrat cfg { sd2 with bankrupt := true } kids1).bind fun (sdF, kidsF) =>
-      (stratWrite cfg d newpt sdF val acc.notl acc.bo).bind fun sd3 =>
-      if kidsF.any (fun k => !k.skipped) then
-        (updNode cfg d (.strat sd3 kidsF)).bind fun n =>
-        match n with
-        | .sec _ => throw Err.badPath
-        | .strat sd4 kids4 =>
-          pure { root := .strat (stratRows d sd4) (kidsWeights cfg sd4.fixedIncome val acc.notl kids4), stale := false }
-      else
-        pure { root := .strat (stratRows d sd3) kidsF, stale := true }
+      (updNode cfg d (.strat sdF kidsF)).map fun n => { root := n, stale := false }
     else
       (stratWrite cfg d newpt sd2 val acc.notl acc.bo).map fun sd3 =>
       { root := .strat (stratRows d sd3) (kidsWeights cfg sd3.fixedIncome val acc.notl kids1), stale := false }
